@@ -768,6 +768,12 @@ def attr_model(self, e, base, st, spec):
             self.oblige(st, z3.Not(base.isnone), f"not-None@{e.lineno}:{e.col_offset}", "exception-freedom", e.lineno,
                         ast.unparse(e.value) + " is not None")
         base = base.val
+    if isinstance(base, Opt) and isinstance(base.val, Ref) and not spec:
+        # attribute / property of an Optional[object]: None has no such attribute
+        base = deopt(self, base, st, spec, e)
+        o = _heap(st, base)
+        if e.attr in o:
+            return o[e.attr]
     if isinstance(base, UnitV):
         if e.attr == "segment":
             return base.segment
